@@ -488,6 +488,20 @@ def ob_mprocess_conv(sys, m):
             out.append(Eq(f"choi_with_sparsity[{k}]", mp.to_choi_matrix_with_sparsity(k), ref))
             out.append(Eq(f"comp_basis[{k}]", cb[k], refs.mm(refs.mm(U, hss[k]), U.conj().T)))
             out.append(Eq(f"hs(({k},))", mp.hs((k,)), hss[k]))
+        # convert_basis to a basis whose transition matrix is not Hermitian (the computational basis, both orderings): per outcome U hs U†
+        for mode in ("row_major", "column_major"):
+            Em = comp_basis_ref(d, mode)
+            Um = _U(Em, B)
+            conv = mp.convert_basis(c.comp_basis(mode=mode))
+            for k in range(m):
+                out.append(Eq(f"convert_basis(comp basis {mode})[{k}] == U hs U†", conv[k], refs.mm(refs.mm(Um, hss[k]), Um.conj().T)))
+            # both orderings asked on the same composite system, in both orders (nothing is remembered from the first request)
+            cb2 = mp.convert_to_comp_basis(mode=mode)
+            for k in range(m):
+                out.append(Eq(f"convert_to_comp_basis(mode={mode})[{k}] == U hs U†", cb2[k], refs.mm(refs.mm(Um, hss[k]), Um.conj().T)))
+        cb3 = mp.convert_to_comp_basis(mode="row_major")
+        for k in range(m):
+            out.append(Eq(f"convert_to_comp_basis(row_major, asked again after column_major)[{k}]", cb3[k], refs.mm(refs.mm(U, hss[k]), U.conj().T)))
         return out
     inp = []
     for k in range(m):
